@@ -93,13 +93,19 @@ class DiskSink(Sink[Union[str,Sequence[str]]]):
 
         lines = iter(lines)
         batch = None
+        mode  = self._mode
 
-        while self._unfinished(batch):
-            batch = self._get_batch(lines)
-            with self:
-                for line in batch:
-                    self._file.write((line + '\n').encode('utf-8'))
-                    self._file.flush()
+        try:
+            while self._unfinished(batch):
+                batch = self._get_batch(lines)
+                with self:
+                    for line in batch:
+                        self._file.write((line + '\n').encode('utf-8'))
+                        self._file.flush()
+                #when the file is reopened for the next batch it must not be truncated again
+                self._mode = self._mode.replace('w','a')
+        finally:
+            self._mode = mode
 
     def _get_batch(self, lines: Iterable[str]) -> Iterable[str]:
         batch = islice(lines,self._batch)
